@@ -257,22 +257,33 @@ theorem inv_step (hw : WF g) (hi : Inv cfg g f s) (hs : step cfg g f s e = some 
   inlineDisp := inv_inlineDisp hw hi hs
   cap := inv_cap hi hs
 
-theorem sumUpTo_zero (k : Nat) : sumUpTo (fun _ => 0) k = 0 := by
-  induction k with
-  | zero => rfl
-  | succ k ih => simp [sumUpTo, ih]
-
 theorem init_phase_cases (a : Nat) :
     (init (R := R) g env0).phase a = .queued ∨ (init (R := R) g env0).phase a = .idle ∨
     (init (R := R) g env0).phase a = .done := by
   simp only [init]
   by_cases h1 : a ≤ g.n <;> by_cases h2 : g.deps a = [] <;> simp [h1, h2]
 
-theorem inv_init (env0 : Nat) (h0 : env0 ≤ cfg.c) : Inv cfg g f (init g env0) where
+theorem init_passed (d i : Nat) : ((init (R := R) g env0).phase d).passed i = false ∨ g.n < d := by
+  by_cases hd : d ≤ g.n
+  · left
+    simp only [init, hd, if_true]
+    split <;> rfl
+  · right; omega
+
+theorem inv_init (hw : WF g) (env0 : Nat) (h0 : env0 ≤ cfg.c) : Inv cfg g f (init g env0) where
   outside := by intro a ha; simp [init]; omega
-  pend := by intro t _; simp [init]
+  pend := by
+    intro t ht
+    show (g.deps t).length = _
+    rw [hw.edges_len t ht]
+    symm
+    apply openEdges_congr
+    intro d i hd _
+    rcases init_passed (R := R) (g := g) (env0 := env0) d i with h | h
+    · exact h
+    · omega
   decIff := by
-    intro d hd i t _
+    intro d hd i _
     simp only [init, hd, if_true]
     split <;> rfl
   idleIff := by
@@ -342,6 +353,6 @@ theorem inv_run (hw : WF g) {es : List Ev} : ∀ {s s' : State R}, Inv cfg g f s
 theorem inv_reachable (hw : WF g) {env0 : Nat} (h0 : env0 ≤ cfg.c)
     (hr : Reachable cfg g f env0 s) : Inv cfg g f s := by
   obtain ⟨es, h⟩ := hr
-  exact inv_run hw (inv_init env0 h0) h
+  exact inv_run hw (inv_init hw env0 h0) h
 
 end Verif.C06
